@@ -18,6 +18,22 @@ Translated:
   src/regex_radix_tree/prefix.rs   `common_prefix_char_size` (a `loop` with `next_char_or_return!`)
         -> genCommonPrefixCharSize (left right : List Char) : Nat
 
+  src/router/route_time.rs, route_datetime.rs, route_weekday.rs   `match_datetime`;  route_ip.rs `match_ip` (one def per arm)
+        -> genRouteTimeMatch / genRouteDateTimeMatch (start stop : Option Nat) (timeOfDay | instant : Nat) : Bool
+           genRouteWeekdayMatch {α} [BEq α] (weekdays : List α) (weekday : α) : Bool
+           genRouteIpMatchInRange / NotInRange {κ β} (contains : κ → β → Bool) (range : κ) (ip : β) : Bool
+  src/action/mod.rs   `get_status_code`, `get_final_status_code_with_fallback`, `should_log_request`
+        -> genActionGetStatusCode / genActionShouldLogRequest {σ ι} (subGet ..) (insert : List ι → ι → List ι) .. : _ × List ι
+           genActionGetFinalStatusCode {α} (getStatusCode : α → Nat → Nat × α) (st : α) (c fallback : Nat) : (Nat × Nat) × α
+  (proofs: Proofs/TimeGen.lean, Proofs/ActionGen.lean; restated theorems: Props/C01gen.lean, Props/C05gen.lean)
+
+Added for these targets: `match OPTION { None => .., Some(x) => .. }` in tail position (nested; arms as blocks or
+expressions; emitted `none` first), `if let Some(x) = OPTION { .. }` that assigns modelled state, `let (a, b[, c]) =
+recv.known_call(..)`, `let x = self.known_call(args, <unit trace>)` (threads the `&mut self` state), tuples, `Some(E)`,
+`None`, `<` `>` `<=` `>=`, `.0`, `.as_ref()`, `.unwrap_or(E)`, `.contains(E)` on lists / known receivers,
+`self.set.insert(E)`, per-function ABSTRACT expressions (`datetime.naive_utc().time()` is a parameter), argument names
+captured from the signature (free), unit-trace blocks compared modulo the function's locals and their own binders.
+
 The subset (everything else is an error):
   statements   let [mut] x = E;   x = E;   x += n;   x -= n;   x.push(E);   x.extend(E);   break;   return E;
                for x in [&]xs { .. }          (xs a list-typed variable; translated to a recursive definition)
